@@ -27,7 +27,7 @@ ASSUMPTIONS = [
     'definitions keep start + duration inside the source media; requests past the source end are checked separately for 404',
     'shims + werkzeug test client as HTTP boundary',
 ]
-REQUIRED_COUNTERS = ['mps.created', 'manifest.vod', 'manifest.live', 'segments.identified', 'past_end.checked',
+REQUIRED_COUNTERS = ['direct_time.requested', 'direct_time.past_end', 'mps.created', 'manifest.vod', 'manifest.live', 'segments.identified', 'past_end.checked',
                      'ownership.checked', 'reach.create_all_vod_periods', 'reach.create_all_live_periods',
                      'reach.calculate_media_segment_index', 'reach.process_period']
 
@@ -173,6 +173,60 @@ class MpsWalk:
         if len(res.samples) < 4:
             res.samples.append({'url': url, 'periods': [(p.id, float(p.start or 0), float(p.duration or 0)) for p in periods]})
 
+    def walk_direct_time(self, label, rep, sf, key, starts, k0, rp, rng) -> None:
+        """$Time$ requests built by hand, independent of what the manifest's SegmentTimeline says:
+        time t counts from the Period's first source segment (the handler's own convention), so
+        t_j = start of stored segment k0+j minus start of segment k0 delivers stored segment k0+j
+        with decode time t_j and sequence number startNumber+j; a time past the source end is 404."""
+        res = self.res
+        iu = rep.init_url()
+        if not iu or '/init.' not in iu:
+            return
+        n = len(sf.segments)
+        picks = sorted({0, 1, (n - k0) // 2, n - k0 - 1} & set(range(n - k0)))
+        for j in picks:
+            t = starts[k0 + j] - starts[k0]
+            u = iu.replace('/init.', f'/time/{t}.')
+            r = self.get(u)
+            res.count('direct_time.requested')
+            what = f'direct $Time$={t} (segment {j + 1} of the period)'
+            if r.status_code != 200:
+                res.violation('period-direct-time-request-refused', f'{label}: {what} -> {r.status_code}', rp,
+                              exception=self.env.rec.last_exception)
+                return
+            try:
+                frag = ib.read_fragment(r.data)
+            except Exception as err:
+                res.violation('period-direct-time-segment-not-well-formed', f'{label}: {what}: {err}', rp)
+                return
+            payload = r.data[frag.mdat.body:frag.mdat.end]
+            ks = self.index.payload[key].get(hashlib.sha1(payload).digest(), [])
+            if (k0 + j) not in ks:
+                res.violation('period-direct-time-delivers-wrong-source-segment',
+                              f'{label}: {what} delivered stored segment {[k + 1 for k in ks]}, expected {k0 + j + 1}', rp)
+                return
+            tfdt = frag.tfdt[1] if frag.tfdt else None
+            if tfdt != t:
+                res.violation('period-direct-time-decode-time-differs', f'{label}: {what}: tfdt {tfdt}', rp)
+                return
+            if frag.sequence_number != rep.start_number + j:
+                res.violation('period-direct-time-sequence-number-differs',
+                              f'{label}: {what}: mfhd sequence number {frag.sequence_number}, '
+                              f'expected startNumber {rep.start_number} + {j}', rp)
+                return
+            res.count('direct_time.held')
+        # one and two segment durations past the end of the source
+        last = sf.segments[-1].duration
+        for extra in (0, last):
+            t = starts[-1] + last - starts[k0] + extra
+            r = self.get(iu.replace('/init.', f'/time/{t}.'))
+            res.count('direct_time.past_end')
+            if r.status_code != 404:
+                res.violation('period-direct-time-past-source-end-not-404',
+                              f'{label}: direct $Time$={t} (source ends at {starts[-1] + last - starts[k0]}) -> {r.status_code}', rp,
+                              exception=self.env.rec.last_exception)
+                return
+
     def walk_rep(self, url, doc, pv, rep, stream_dir, src_start, mode, now, rp, rng) -> None:
         res = self.res
         key = (stream_dir, rep.id)
@@ -269,6 +323,7 @@ class MpsWalk:
                               f'{label}: {what}: tfdt {tfdt}, previous ended at {expect_tfdt}', rp)
                 break
             expect_tfdt = (tfdt or 0) + dur
+        self.walk_direct_time(label, rep, sf, key, starts, k0, rp, rng)
         # beyond the end of the source media
         if rep.timeline is None:
             beyond = rep.start_number + (len(sf.segments) - k0) + rng.randrange(0, 3)
@@ -278,6 +333,10 @@ class MpsWalk:
                 res.violation('request-beyond-source-end-not-404',
                               f'{label}: $Number$={beyond} (source has {len(sf.segments)} segments, period starts at '
                               f'segment {k0 + 1}) -> {r.status_code}', rp, exception=self.env.rec.last_exception)
+
+
+def _noop():
+    pass
 
 
 def run_shard(ctx: ShardCtx) -> ShardResult:
